@@ -546,6 +546,10 @@ def impl_real(arg):
             pp.register_plugin(grp + '.suffixes', '.ref', find_plugin(grp, other))
             pp.register_plugin(grp, fmt.upper(), find_plugin(grp, other))
             pp.register_plugin(grp + '.suffixes', suffixes[0].upper(), find_plugin(grp, other))
+            # cross-kind: an ALIAS (and a suffix) spelled like this installed format NAME, pointing elsewhere
+            pp.register_plugin(grp + '.aliases', fmt, find_plugin(grp, other))
+            pp.register_plugin(grp + '.aliases', fmt, find_plugin(grp, other), force=True)
+            pp.register_plugin(grp + '.suffixes', '.' + fmt + 'x', find_plugin(grp, other))
         suffixes = suffixes + ['.REF']
         try:
             db = build_db(spec)
@@ -1509,7 +1513,7 @@ def generated_obligations(ck):
              'ok': ok, 'log': log}]
 
 # ----------------------------------------------------------------------------------------
-RULE = ('registry: all histories of <= 3 registrations (thorough: also <= 4 over one group, <= 5 over 6 operations) over 2 groups x {name, alias, suffix} x 2 names x force, plus all histories <= 3 over pairs differing only in case (x/X as name, alias, suffix) '
+RULE = ('registry: all histories of <= 3 registrations (thorough: also <= 4 over one group, <= 5 over 6 operations) over 2 groups x {name, alias, suffix} x 2 names x force, plus all histories <= 3 over pairs differing only in case (x/X as name, alias, suffix) and over cross-kind collisions (run-time alias = installed name, run-time name = installed alias, run-time suffix = .name; forced and un-forced) '
         'against a table-driven entry_points(), each followed by a fixed probe vector of 16 look-ups, plus pinned (F11) and random/malformed histories against the real installed entry points; '
         '_open/open_raw/open_unicode: the full matrix of (first, fallback) opener outcomes x TEXMFOUTPUT x mode x file-name shapes, and of isfile x kpsewhich outcomes (a real subprocess); '
         'recorder subclasses of the real bibtex/yaml/bibtexml readers and writers (fn 9) and probe plug-ins (recording parse_stream / chunked write_stream) through every BaseParser/BaseWriter method and every module-level function x 4 codecs (utf-8, latin-1, ascii, utf-16) over fixed and random texts / byte strings incl. malformed UTF-8/UTF-16; '
@@ -1586,7 +1590,8 @@ def probe_vector(groups):
     v = []
     for g in groups:
         v += [find(g, 'x'), find(g, 'i'), find(g, 'ia'), find(g, None, 'f.x'), find(g, None, 'd.x/f.i'), find(g), enum(g), enum(g + '.aliases'),
-              find(g, 'X'), find(g, 'I'), find(g, 'IA'), find(g, None, 'f.X'), find(g, None, 'F.x'), find(g, None, 'f.I')]
+              find(g, 'X'), find(g, 'I'), find(g, 'IA'), find(g, None, 'f.X'), find(g, None, 'F.x'), find(g, None, 'f.I'),
+              find(g, 'bibtex'), find(g, 'latex'), find(g, None, 'f.bibtex'), find(g, None, 'f.latex'), enum(g + '.suffixes')]
     return v
 
 def reg_alphabet(groups, names=(0, 1)):
@@ -1610,6 +1615,15 @@ def gen_registry(tier, rng):
     case_ops = [(G_IN + kind, nm, force) for kind, pool in (('', ['x', 'X']), ('.aliases', ['x', 'X']), ('.suffixes', ['.x', '.X', '.I']))
                 for nm in pool for force in (0, 1)]
     plans.append((case_ops, 3))
+    # cross-kind collisions: a key installed as ONE kind registered at run time as ANOTHER kind
+    # ('bibtex' / 'latex': installed names, no alias of that spelling; 'ia': installed alias, no such name)
+    cross_ops = []
+    for g, nm in ((G_IN, 'bibtex'), (G_BACK, 'latex')):
+        for grp, key in ((g + '.aliases', nm), (g, 'ia'), (g + '.suffixes', '.' + nm), (g, nm), (g + '.aliases', 'ia')):
+            for force in (0, 1):
+                cross_ops.append((grp, key, force))
+    plans.append(([o for o in cross_ops if o[0].startswith(G_IN)], 3))
+    plans.append((cross_ops, 2))
     seen = set()
     for alphabet, maxlen in plans:
         for n in range(0, maxlen + 1):
@@ -1628,6 +1642,12 @@ def gen_registry(tier, rng):
         [find(G_IN, '.x'), find(G_IN, None, 'a'), find(G_IN, ''), find(G_IN, '', ''), find('nogroup', 'x'), find('nogroup', None, None, 3)],
         [reg(G_IN + '.suffixes', 'x', 1, 0), reg('nogroup', 'x', 1, 0), reg('nogroup.suffixes', 'x', 1, 0), reg('.suffixes', '.x', 1, 1), reg('.aliases', 'x', 1, 1)],
         [reg(G_IN + '.aliases', 'x', 1, 0), reg(G_IN, 'x', 2, 0), find(G_IN, 'x')],
+        # a run-time ALIAS spelled like an installed NAME must not shadow it (names win over aliases whichever side registered them)
+        [reg(G_IN + '.aliases', 'bibtex', 1, 0), find(G_IN, 'bibtex'), find(G_IN), find(G_IN, None, 'a.bib'), reg(G_IN + '.aliases', 'bibtex', 2, 1), find(G_IN, 'bibtex'),
+         reg(G_OUT + '.aliases', 'yaml', 3, 0), find(G_OUT, 'yaml'), reg(G_BACK + '.aliases', 'latex', 1, 1), find(G_BACK, 'latex'), find(G_BACK)],
+        # a run-time NAME spelled like an installed ALIAS does shadow it; a run-time suffix '.bibtex' is just a suffix
+        [reg(G_IN, 'bibyaml', 1, 0), find(G_IN, 'bibyaml'), reg(G_BACK, 'md', 2, 0), find(G_BACK, 'md'), reg(G_IN + '.suffixes', '.bibtex', 3, 0), find(G_IN, None, 'a.bibtex'), find(G_IN, 'bibtex'),
+         reg(G_IN, 'ia', 1, 0), find(G_IN, 'ia')],
         # case: '.REF' and '.ref' are different suffixes, 'Bib' and 'bib' different names
         [reg(G_IN + '.suffixes', '.REF', 1, 0), find(G_IN, None, 'a.REF'), find(G_IN, None, 'a.ref'), reg(G_IN + '.suffixes', '.ref', 2, 0),
          find(G_IN, None, 'a.REF'), find(G_IN, None, 'a.ref'), find(G_IN, None, 'a.Ref'), reg(G_IN + '.suffixes', '.REF', 3, 1), find(G_IN, None, 'a.REF'), find(G_IN, None, 'a.ref')],
@@ -1652,7 +1672,7 @@ def gen_registry(tier, rng):
             kind = rng.choice(['', '', '.aliases', '.suffixes', '.suffixes.aliases', '.aliases.suffixes'])
             r = rng.random()
             if r < 0.45:
-                pool = (real_names.get(g, []) + ['x', 'y', 'i', 'ia', 'X', 'I']) if kind != '.suffixes' else sfxs
+                pool = (real_names.get(g, []) + ['x', 'y', 'i', 'ia', 'X', 'I']) if kind != '.suffixes' else sfxs + ['.' + n for n in real_names.get(g, [])[:3]]
                 if rng.random() < 0.1:
                     pool = sfxs + ['', '.x']
                 calls.append(reg(g + kind, rng.choice(pool), rng.choice([0, 1, 1, 2, 3]), rng.random() < 0.3))
